@@ -402,9 +402,18 @@ func E7PoolReinit(c *core.Ctx, r *core.Report) {
 					r.Fail("E7.pool-reinit", key, c.Pos(ta.Pos()), "pooled value is not asserted to a pointer type")
 					continue
 				}
+				if _, isSlice := pt.Elem().Underlying().(*types.Slice); isSlice {
+					// a recycled buffer: every slice cut from it is cleared (builtin clear) in this function
+					if bad := poolSliceUncleared(fn, ta); bad != nil {
+						r.Fail("E7.pool-reinit", key, c.Pos(bad.Pos()), fmt.Sprintf("recycled %s is handed out with the contents of its previous use: the slice cut from it is not passed to clear() in this function, so bytes written by an earlier call are observable wherever the new user relies on zeroed memory", pt.Elem()))
+					} else {
+						r.OK("E7.pool-reinit", key, c.Pos(ta.Pos()), "")
+					}
+					continue
+				}
 				st, ok := pt.Elem().Underlying().(*types.Struct)
 				if !ok {
-					r.Fail("E7.pool-reinit", key, c.Pos(ta.Pos()), "pooled value is not a struct pointer")
+					r.Fail("E7.pool-reinit", key, c.Pos(ta.Pos()), "pooled value is neither a struct pointer nor a slice pointer")
 					continue
 				}
 				var v ssa.Value = ta
@@ -473,6 +482,73 @@ func E7PoolReinit(c *core.Ctx, r *core.Report) {
 		}
 	}
 	r.Floor("E7.pool-gets", 6)
+}
+
+// poolSliceUncleared follows the pooled *[]T (through the comma-ok extract, loads and phis) to the
+// slices cut from it and returns the first one that is not an argument of the builtin clear in fn;
+// a load that is used other than by len/cap/slicing counts as a slice itself.
+func poolSliceUncleared(fn *ssa.Function, ta *ssa.TypeAssert) ssa.Instruction {
+	ptrs := map[ssa.Value]bool{ta: true}
+	loads := map[ssa.Value]bool{}
+	slices := []ssa.Value{}
+	cleared := map[ssa.Value]bool{}
+	for changed := true; changed; {
+		changed = false
+		for _, b := range fn.Blocks {
+			for _, ins := range b.Instrs {
+				switch x := ins.(type) {
+				case *ssa.Extract:
+					if ptrs[x.Tuple] && x.Index == 0 && !ptrs[x] {
+						ptrs[x], changed = true, true
+					}
+				case *ssa.UnOp:
+					if x.Op == token.MUL && ptrs[x.X] && !loads[x] {
+						loads[x], changed = true, true
+					}
+				}
+			}
+		}
+	}
+	for _, b := range fn.Blocks {
+		for _, ins := range b.Instrs {
+			switch x := ins.(type) {
+			case *ssa.Slice:
+				if loads[x.X] {
+					slices = append(slices, x)
+				}
+			case *ssa.Call:
+				if bi, ok := x.Call.Value.(*ssa.Builtin); ok && bi.Name() == "clear" && len(x.Call.Args) == 1 {
+					cleared[x.Call.Args[0]] = true
+				}
+			}
+		}
+	}
+	for l := range loads {
+		for _, ref := range *l.(*ssa.UnOp).Referrers() {
+			switch x := ref.(type) {
+			case *ssa.Slice:
+				continue
+			case *ssa.Call:
+				if bi, ok := x.Call.Value.(*ssa.Builtin); ok && (bi.Name() == "len" || bi.Name() == "cap" || bi.Name() == "clear") {
+					continue
+				}
+			case *ssa.DebugRef:
+				continue
+			}
+			if !cleared[l] {
+				return l.(*ssa.UnOp)
+			}
+		}
+	}
+	for _, sl := range slices {
+		if !cleared[sl] {
+			return sl.(*ssa.Slice)
+		}
+	}
+	if len(slices) == 0 && len(loads) == 0 {
+		return ta
+	}
+	return nil
 }
 
 // mapRangeReviewed: order-dependent looking bodies that are in fact order-independent, with the reason.
